@@ -98,3 +98,53 @@ Theorem C16_window_budget : forall size mb w o w',
   InflRefine.window_inv size mb w -> InflRefine.astep size mb w o = Some w' -> InflRefine.window_inv size mb w'.
 Proof. exact InflRefine.window_inv_step. Qed.
 Print Assumptions C16_window_budget.
+
+(* ---- the window as an invariant of the node (Proofs/FlowInvProofs.v) ---- *)
+From RaftV Require Import RawNode NodeProps.
+From RaftV Require FlowInvProofs StreamEx.
+
+(* [pinv M B r]: the tracker's limits are M (MaxInflightMsgs) and B (MaxInflightBytes), and every
+   Progress has a window that represents at most M messages and, under a byte limit, keeps all but
+   its newest message below B.  Every message of any type, term and content keeps it ... *)
+Theorem C16_window_invariant_step : forall M B st r m r' e,
+  step st r m = Ok (r', e) -> FlowInvProofs.pinv M B r -> FlowInvProofs.pinv M B r'.
+Proof. exact FlowInvProofs.step_pk. Qed.
+Print Assumptions C16_window_invariant_step.
+
+(* ... every tick keeps it ... *)
+Theorem C16_window_invariant_tick : forall M B st r r',
+  tick st r = Ok r' -> FlowInvProofs.pinv M B r -> FlowInvProofs.pinv M B r'.
+Proof. exact FlowInvProofs.tick_pk. Qed.
+Print Assumptions C16_window_invariant_tick.
+
+(* ... a configuration change or a snapshot restore installs fresh windows of the same limits ... *)
+Theorem C16_window_invariant_conf_change : forall M B st r cc r' cs,
+  apply_conf_change_raft st r cc = Ok (r', cs) -> FlowInvProofs.pinv M B r -> FlowInvProofs.pinv M B r'.
+Proof. exact FlowInvProofs.apply_conf_change_raft_pk. Qed.
+Print Assumptions C16_window_invariant_conf_change.
+
+(* ... so does every input of the RawNode API, over every history of an incarnation ... *)
+Theorem C16_window_invariant_history : forall M B ins n n' rn,
+  n_rn n = Some rn -> FlowInvProofs.rpinv M B rn ->
+  Forall (fun id => same_incarnation (fst id) = true) ins ->
+  node_run n ins = Ok n' ->
+  exists rn', n_rn n' = Some rn' /\ FlowInvProofs.rpinv M B rn'.
+Proof. exact FlowInvProofs.node_run_pinv. Qed.
+Print Assumptions C16_window_invariant_history.
+
+(* ... and a new node starts with it, for the limits of its configuration *)
+Theorem C16_window_invariant_start : forall st c d rn,
+  new_rawnode st c d = Ok rn ->
+  FlowInvProofs.rpinv (cfg_max_inflight_msgs c)
+    (if N.eqb (cfg_max_inflight_bytes c) 0 then noLimit else cfg_max_inflight_bytes c) rn.
+Proof. exact FlowInvProofs.new_rawnode_pinv. Qed.
+Print Assumptions C16_window_invariant_start.
+
+(* what it means: in every such state no follower has more than MaxInflightMsgs appends in flight,
+   nor, under a byte limit, more than MaxInflightBytes beyond the one message that crosses it *)
+Theorem C16_window_bounds : forall M B r id pr,
+  FlowInvProofs.pinv M B r -> get_progress r id = Some pr ->
+  infl_count (pr_inflights pr) <= M /\
+  (B <> 0 -> InflRefine.sumb (removelast (infl_window (pr_inflights pr))) < B \/ infl_window (pr_inflights pr) = []).
+Proof. exact FlowInvProofs.pinv_bounds. Qed.
+Print Assumptions C16_window_bounds.
